@@ -50,7 +50,7 @@ class Cfg:
 
     def __init__(self, N=3, T=3, dims=(), scale=(), use_scale=True, reg_cust=False,
                  per_axis_pos=False, name="struct", enable=(), rebuild=None, embed=None, max_stroke=0, node_shift=0,
-                 seg_dtype="uint16"):
+                 seg_dtype="uint16", formats=None):
         self.N, self.T = N, T
         self.dims = tuple(dims)
         self.scale = tuple(scale) if scale else tuple(1 for _ in dims)
@@ -70,6 +70,7 @@ class Cfg:
         # [per spatial axis: real index of abstract index 0.. (or None = identity)]}: embedding along every axis
         self.max_stroke = max_stroke    # 0: all strokes are fired; k: only strokes of <= k pixels
         self.seg_dtype = seg_dtype      # dtype of the label array
+        self.formats = formats          # round-trip formats of the export harness (None = csv, geff, internal)
         self.P = int(np.prod(self.dims)) if self.dims else 0
 
     @property
@@ -81,7 +82,7 @@ class Cfg:
                 "use_scale": self.use_scale, "reg_cust": self.reg_cust,
                 "per_axis_pos": self.per_axis_pos, "name": self.name, "enable": self.enable,
                 "rebuild": self.rebuild, "embed": self.embed, "max_stroke": self.max_stroke, "node_shift": self.node_shift,
-                "seg_dtype": self.seg_dtype}
+                "seg_dtype": self.seg_dtype, "formats": self.formats}
 
     @staticmethod
     def from_json(d):
